@@ -8,7 +8,7 @@ from fractions import Fraction
 from .. import core, check, cliflow, epcheck, gen, panicscan, parseflow as pf, textflow as tf
 
 THEOREMS = ["C16_components_reader_never_panics", "C16_factors_reader_never_panics", "C16_line_readers_never_panic",
-            "C16_meta_reader_guarded"]
+            "C16_meta_reader_guarded", "C16_accepted_components_have_one_length", "C16_normalisation_keeps_the_length"]
 
 FN = {"used": ("parse_used", "(energy_cmp qs_eqb)", pf.g_pres_energy), "prod": ("parse_prod", "(energy_cmp qs_eqb)", pf.g_pres_energy),
       "aux": ("parse_aux", "(energy_cmp qs_eqb)", pf.g_pres_energy), "out": ("parse_out", "(energy_cmp qs_eqb)", pf.g_pres_energy),
